@@ -443,6 +443,12 @@ func verifH_NewStream() {
 		by = vAddCliStream(c, id)
 	}
 	ctx := context.Background()
+	if verifBool("ctxFromOtherTunnel") {
+		// a follow-up RPC issued with the context of an RPC that another tunnel carried
+		otherCh := vNewCliChannel(vNewCliCarrier(context.Background()), 0, false)
+		ctx = context.WithValue(ctx, tunnelMetadataOutgoingContextKey{}, metadata.MD{"open": {"other"}})
+		ctx = context.WithValue(ctx, tunnelChannelContextKey{}, otherCh)
+	}
 	mdShape := verifChoice("md", 3)
 	switch mdShape {
 	case 1:
